@@ -1488,19 +1488,19 @@ class composite_if(x12_node):
             if not good_flag:
                 err_str = 'At least one component of composite "%s" (%s) is required' % \
                     (self.name, self.refdes)
-                errh.ele_error('2', err_str, None, self.refdes)
+                errh.ele_error('2', err_str, None, '%02i' % (self.seq))
                 return False
 
         if self.usage == 'N' and not comp_data.is_empty():
             err_str = 'Composite "%s" (%s) is marked as Not Used' % (
                 self.name, self.refdes)
-            errh.ele_error('5', err_str, None, self.refdes)
+            errh.ele_error('5', err_str, None, '%02i' % (self.seq))
             return False
 
         if len(comp_data) > self.get_child_count():
             err_str = 'Too many sub-elements in composite "%s" (%s)' % (
                 self.name, self.refdes)
-            errh.ele_error('3', err_str, None, self.refdes)
+            errh.ele_error('3', err_str, None, '%02i' % (self.seq))
             valid = False
         for i in range(min(len(comp_data), self.get_child_count())):
             valid &= self.get_child_node_by_idx(i).is_valid(comp_data[i], errh)
